@@ -57,7 +57,8 @@ pub fn script_worker() -> Handler {
                 Some("file") => {
                     let path = dir.join("s.sh");
                     std::fs::write(&path, v["s"].as_str().unwrap_or("")).expect("write script file");
-                    ipr.run_file_on(&mut sh, &path, &[]).await
+                    // invoked the way bash is (`./s.sh`, relative to the shell's working directory)
+                    ipr.run_file_on(&mut sh, std::path::Path::new("./s.sh"), &[]).await
                 }
                 Some("dash-c") => ipr.run_dash_c_on(&mut sh, v["s"].as_str().unwrap_or("")).await,
                 _ => ipr.run_on(&mut sh, v["s"].as_str().unwrap_or("")).await,
